@@ -150,14 +150,58 @@ class A2:
             expr = interp.lift(value)
         self.eng.store(self, fam, I, J, space, expr, interp)
 
+    def _fd_binop(self, op, other, reflected, interp):
+        """whole-array arithmetic: evaluated when (and where) the result is subscripted"""
+        a, b = (other, self) if reflected else (self, other)
+        return Lazy2(self.eng, self.role, self.vec, lambda idx, it_: it_.binop(op, _item(a, idx, it_), _item(b, idx, it_)))
+
     def _strip(self, idx):
+        if isinstance(idx, tuple) and len(idx) == 2 and idx[0] is Ellipsis:
+            return idx[1]           # arr[..., k]: the LAST axis (faces / cells) for scalar and vector arrays alike
         if self.vec:
             if isinstance(idx, tuple) and len(idx) == 2 and isinstance(idx[0], slice) and idx[0] == slice(None, None, None):
                 return idx[1]
-            raise AnalysisError("vector layout array indexed without a leading ':'")
+            e = AnalysisError("vector layout array indexed without a leading ':'")
+            if isinstance(idx, slice) or isinstance(idx, Family):
+                # g[a:b] on a (2, n) array addresses the COMPONENT axis: rows a..b of two -- for b >= 2 that is every entry
+                e.violation = ("VEC-LAYOUT", self.eng.cur, "the (2, n) vector array `%s` is subscripted with ONE index (line %s): that index runs over the COMPONENT axis, not over the faces / cells -- a slice [a:b] with b >= 2 selects both components entirely (the whole array), where the scalar arrays select entries a..b" % (self.name.split("_")[0], getattr(interp_line(self.eng), "x", "?")),
+                               "vec-one-index", {"C11", "C14", "C15", "C01", "C03", "C13", "C16"})
+            raise e
         if isinstance(idx, tuple):
             raise AnalysisError("scalar layout array indexed with a tuple")
         return idx
+
+
+class _Line:
+    def __init__(self, x):
+        self.x = x
+
+
+def interp_line(eng):
+    return _Line(getattr(eng.it.dom, "cur_line", "?"))
+
+
+def _item(x, idx, interp):
+    if hasattr(x, "_fd_getitem"):
+        return x._fd_getitem(idx, interp)
+    return x            # a scalar operand
+
+
+class Lazy2:
+    """element-wise expression over whole layout arrays (p - np.roll(p, 1)): one value per entry, obtained by subscripting"""
+    def __init__(self, eng, role, vec, fn):
+        self.eng, self.role, self.vec, self.fn = eng, role, vec, fn
+
+    @property
+    def ndim(self):
+        return 2 if self.vec else 1
+
+    def _fd_getitem(self, idx, interp):
+        return self.fn(idx, interp)
+
+    def _fd_binop(self, op, other, reflected, interp):
+        a, b = (other, self) if reflected else (self, other)
+        return Lazy2(self.eng, self.role, self.vec, lambda idx, it_: it_.binop(op, _item(a, idx, it_), _item(b, idx, it_)))
 
 
 class Engine:
@@ -172,7 +216,7 @@ class Engine:
         self.relations = []
         self.cur = "?"
         self.it.range_hook = self.range_hook
-        self.it.np_hooks.update({"zeros_like": self.zeros_like, "arange": self.arange, "builtin:slice": self.slice_table, "zeros": self.np_zeros, "repeat": lambda a, k: ("repeat", a[0], a[1]), "full": lambda a, k: ("repeat", a[1], a[0])})
+        self.it.np_hooks.update({"zeros_like": self.zeros_like, "arange": self.arange, "roll": self.roll, "builtin:slice": self.slice_table, "zeros": self.np_zeros, "repeat": lambda a, k: ("repeat", a[0], a[1]), "full": lambda a, k: ("repeat", a[1], a[0])})
         self.dir_stores = []
         self.events = []
 
@@ -195,6 +239,54 @@ class Engine:
 
     def arange(self, args, kwargs):
         return Family(self.alg, self.it.lift(args[0]), self.alg.const(1), self.alg.const(0))
+
+    def roll(self, args, kwargs):
+        """np.roll(arr, k[, axis]) of a layout array: entry e of the result is entry e - k of arr IN THE FLAT (row by row) ORDER --
+        the entry before the first cell of a row is the last cell of the PREVIOUS row (of the last row, for row 0)"""
+        A = self.alg
+        arr = args[0]
+        if not isinstance(arr, (A2, Lazy2)) or len(args) < 2:
+            raise AnalysisError("np.roll of an unsupported operand")
+        k = self.it.lift(args[1])
+        axis = args[2] if len(args) > 2 else kwargs.get("axis")
+        if arr.vec and axis != 1 and axis != -1:
+            e = AnalysisError("np.roll along the component axis of a vector field")
+            e.violation = ("VEC-LAYOUT", self.cur, "np.roll(..., axis=%r) on a (2, n) vector field (line %s): axis 0 is the COMPONENT axis (a roll by an even count changes nothing, by an odd count it exchanges u and v), and without an axis the array is flattened -- the cells are along axis 1" % (axis, getattr(self.it.dom, "cur_line", "?")),
+                           "roll-component-axis", {"C11", "C14", "C15", "C01", "C03", "C13"})
+            raise e
+        if not arr.vec and axis not in (None, 0, -1):
+            raise AnalysisError("np.roll of a 1-D array along axis %r" % (axis,))
+        eng = self
+
+        def get(idx, interp):
+            if isinstance(idx, tuple) and len(idx) == 2 and idx[0] is Ellipsis:
+                idx = (slice(None, None, None), idx[1]) if arr.vec else idx[1]
+            idx2 = idx[1] if (arr.vec and isinstance(idx, tuple)) else idx
+            if isinstance(idx2, Family):
+                new = Family(A, idx2.count, idx2.a, idx2.b - k)
+            elif isinstance(idx2, slice):
+                lift = lambda v: None if v is None else interp.lift(v)
+                s, e_, st = lift(idx2.start), lift(idx2.stop), lift(idx2.step)
+                s = s if s is not None else A.const(0)
+                if st is not None:
+                    # a column of the layout: the rolled column must lie in the SAME row for every row
+                    for fam, base, W in eng.widths(arr.role):
+                        if A.equal(st, W):
+                            c = A.sub(A.sub(s, base), k)
+                            if A.sign(c) not in ("+", ">=0", "0") or A.sign(A.sub(A.sub(W, c), A.const(1))) not in ("+", ">=0", "0"):
+                                raise LayoutMismatch("line %s: np.roll by %s, then column %s of the rows (stride %s): the rolled entry of column %s is column %s of the SAME row only when 0 <= %s < %s -- here it is the %s cell of the %s row in the flat row-by-row order (and wraps to the other end of the array for the first / last row): the seam is closed with another row's cell"
+                                                     % (getattr(interp.dom, "cur_line", 0), A.show(k), A.show(A.sub(s, base)), A.show(W), A.show(A.sub(s, base)), A.show(c), A.show(c), A.show(W), "last" if A.sign(c) == "-" else "first", "previous" if A.sign(c) == "-" else "next"))
+                s2, e2 = A.sub(s, k), (None if e_ is None else A.sub(e_, k))
+                if st is None and A.sign(s2) == "-" and (e2 is None or A.sign(e2) in ("-", "0", "<=0")):
+                    # a block that lies entirely before the start of the rolled array: np.roll wraps it to the END
+                    tot = eng.total_len(arr.role)
+                    s2 = A.add(s2, tot)
+                    e2 = None if (e2 is None or e2.is_zero()) else A.add(e2, tot)
+                new = slice(s2, e2, idx2.step)
+            else:
+                raise AnalysisError("unsupported subscript of a rolled array")
+            return arr._fd_getitem((idx[0], new) if (arr.vec and isinstance(idx, tuple)) else new, interp)
+        return Lazy2(self, arr.role, arr.vec, get)
 
     def slice_table(self, args, kwargs):
         """slice(a, b) stored as an index table: the same faces as a + arange(b - a)"""
@@ -419,6 +511,12 @@ class Engine:
                 for nm, jr in self.rows(fam):
                     if A.equal(b, jr * W):
                         hits.append((fam, "t", "=" + nm, ("rowabs", famidx.count)))
+        if not hits:
+            for fam, base, W in self.widths(arr.role):
+                b = A.sub(famidx.b, base)
+                if A.equal(famidx.a, W) and (A.sign(b) == "-" or A.sign(A.sub(b, W)) in ("+", ">=0", "0")):
+                    raise LayoutMismatch("index table %s*k + (%s) into %s: one entry per row, but at column %s -- outside 0 .. %s-1, so entry k is NOT in row k: in the flat row-by-row order it is a cell of the %s row (for k = 0 a negative index wraps to the END of the array): the line is closed with another row's cells"
+                                         % (A.show(famidx.a), A.show(famidx.b), arr.name, A.show(b), A.show(W), "previous" if A.sign(b) == "-" else "next"))
         if len(hits) != 1:
             raise AnalysisError("index table %s*k+%s does not decode to one boundary line of the layout (%d matches)" % (A.show(famidx.a), A.show(famidx.b), len(hits)))
         return hits[0]
